@@ -344,6 +344,32 @@ func evalNav
   atreturn a-navigation-call-returns-what-its-reader-found: (name == "PREV" || name == "NEXT" ==> result1 == nil && result0 == $pos) && (name == "FIRST" || name == "LAST" ==> result1 == nil && result0 == $fe) && (name == "SUM" || name == "AVG" || name == "COUNT" || name == "MIN" || name == "MAX" ==> result1 == nil && result0 == $agg)
   atreturn an-unknown-name-is-an-error: name != "CLASSIFIER" && name != "MATCH_NUMBER" && name != "PREV" && name != "NEXT" && name != "FIRST" && name != "LAST" && name != "SUM" && name != "AVG" && name != "COUNT" && name != "MIN" && name != "MAX" ==> result1 != nil && result0 == nil
 
+// the rows a navigation or aggregate call ranges over: while a candidate is tested, the rows matched so far followed by
+// the candidate; in MEASURES the running range (up to the cursor) unless FINAL is asked for, then the whole match
+func rowsLabels
+  props C15
+  requires ctx != nil && len(ctx.labels) == len(ctx.rows)
+  ensures while-a-candidate-is-tested-the-range-is-the-matched-rows-followed-by-the-candidate: ctx.candidate != nil ==> len(result0) == len(ctx.rows) + 1 && len(result1) == len(ctx.rows) + 1 && forall(j, 0, len(ctx.rows), result0[j] == ctx.rows[j] && result1[j] == ctx.labels[j]) && result0[len(ctx.rows)] == ctx.candidate && result1[len(ctx.rows)] == ctx.candLabel
+  ensures the-running-range-ends-at-the-cursor: ctx.candidate == nil && !final && ctx.cur >= 0 && ctx.cur < len(ctx.rows) ==> len(result0) == ctx.cur + 1 && len(result1) == ctx.cur + 1 && forall(j, 0, ctx.cur + 1, result0[j] == ctx.rows[j] && result1[j] == ctx.labels[j])
+  ensures the-final-range-is-the-whole-match: ctx.candidate == nil && (final || ctx.cur < 0 || ctx.cur >= len(ctx.rows)) ==> seqeq(result0, ctx.rows) && seqeq(result1, ctx.labels)
+
+// FIRST(x, n) / LAST(x, n): the n-th row from the head / from the tail of the range (n below 1 counts as 1, n beyond the
+// range stops at its far end); an empty range or no argument gives NULL
+func fromEndField
+  props C15
+  option assumed_frame
+  requires ctx != nil && len(ctx.labels) == len(ctx.rows)
+  observe range := rowsLabels
+  observe nth := optInt
+  observe col := fieldName
+  before rowsLabels the-range-is-the-running-or-final-one-asked-for: $arg0 == ctx && $arg1 == final
+  before optInt the-count-is-the-second-argument-one-by-default: $arg0 == args && $arg1 == 1 && $arg2 == 1
+  before fieldName the-column-is-named-by-the-first-argument: $arg0 == args[0]
+  atreturn no-argument-null: len(args) == 0 ==> result == nil
+  atreturn first-counts-from-the-head-clamped-to-the-range: len(args) > 0 && len(rows) > 0 && fromHead ==> n == ite($nth < 1, 1, $nth) && f == $col && seqeq(rows, $range) && result == rows[ite(n - 1 >= len(rows), len(rows) - 1, n - 1)][f]
+  atreturn last-counts-from-the-tail-clamped-to-the-range: len(args) > 0 && len(rows) > 0 && !fromHead ==> n == ite($nth < 1, 1, $nth) && f == $col && seqeq(rows, $range) && result == rows[ite(len(rows) - n < 0, 0, len(rows) - n)][f]
+  atreturn an-empty-range-null: len(args) > 0 && len(rows) == 0 ==> result == nil
+
 pred candCarries(ctx, symbol) := ctx.candidate != nil && labelMatches(ctx.candLabel, symbol, ctx.subsets)
 
 // A.price in a DEFINE / MEASURES expression: the candidate row answers when it carries the symbol, otherwise the LATEST
